@@ -120,6 +120,20 @@ func ruleXRefCompleteness(c *core.Ctx) {
 				}
 			}
 		}
+		typeWrites := 0
+		for _, v := range g.Vs {
+			if v.AST != nil {
+				for _, cs := range core.CallsIn(info, v.AST, false) {
+					if strings.HasSuffix(cs.Key, ".WriteByte") {
+						typeWrites++
+					}
+				}
+			}
+		}
+		if !ok && typeWrites == 0 {
+			o.Unrec("the rows of the cross-reference stream are not written field by field (no WriteByte for the type): the row of a missing entry is not located in this form")
+			return
+		}
 		o.Require(ok, "a missing entry is not written as a type-0 (free) row")
 		// the nil branch must not skip the row
 		for _, e := range nilEdge {
@@ -249,11 +263,31 @@ func ruleXRefCompleteness(c *core.Ctx) {
 		g := fn.Graph()
 		info := fn.Info()
 		var store *core.V
+		isXRefMap := func(e ast.Expr) bool {
+			if strings.HasSuffix(core.ExprStr(e), ".xref") {
+				return true
+			}
+			// a local that holds the map (xref := w.xref)
+			if mt, ok := info.TypeOf(e).Underlying().(*types.Map); ok {
+				if p, isPtr := mt.Elem().(*types.Pointer); isPtr && core.IsNamed(p.Elem(), "pdf", "xRefEntry") {
+					return true
+				}
+			}
+			return false
+		}
+		okVars := map[types.Object]bool{}
 		for _, v := range g.Vs {
 			if as, ok := v.AST.(*ast.AssignStmt); ok {
-				if ix, ok := as.Lhs[0].(*ast.IndexExpr); ok && strings.HasSuffix(core.ExprStr(ix.X), ".xref") {
+				if ix, ok := as.Lhs[0].(*ast.IndexExpr); ok && isXRefMap(ix.X) {
 					store = v
 					o.At(fn.Site(as, "xref store"))
+				}
+				if len(as.Lhs) == 2 && len(as.Rhs) == 1 {
+					if ix, ok := ast.Unparen(as.Rhs[0]).(*ast.IndexExpr); ok && isXRefMap(ix.X) {
+						if obj := core.ObjOf(info, as.Lhs[1]); obj != nil {
+							okVars[obj] = true
+						}
+					}
 				}
 			}
 		}
@@ -264,14 +298,25 @@ func ruleXRefCompleteness(c *core.Ctx) {
 		}
 		dup := g.GuardedBy(store, func(a core.Atom) bool {
 			id, ok := ast.Unparen(a.Expr).(*ast.Ident)
-			return ok && a.Neg && id.Name == "seen"
+			return ok && a.Neg && (id.Name == "seen" || okVars[info.ObjectOf(id)])
 		})
 		o.Require(dup, "an existing entry can be overwritten (duplicate object numbers)")
 		bump := false
 		for _, v := range g.Vs {
 			if as, ok := v.AST.(*ast.AssignStmt); ok && strings.HasSuffix(core.ExprStr(as.Lhs[0]), ".nextRef") {
-				if strings.Contains(core.ExprStr(as.Rhs[0]), "Number() + 1") {
+				if strings.Contains(core.ExprStr(as.Rhs[0]), "Number() + 1") || strings.Contains(resolveText(g, v, as.Rhs[0], 3), "Number()+1") {
 					bump = true
+				}
+				// one more than the key the entry is stored under
+				if be, isBin := ast.Unparen(as.Rhs[0]).(*ast.BinaryExpr); isBin && be.Op == token.ADD {
+					for _, pr := range [][2]ast.Expr{{be.X, be.Y}, {be.Y, be.X}} {
+						if k, isK := core.IntConst(info, pr[1]); isK && k == 1 {
+							key := store.AST.(*ast.AssignStmt).Lhs[0].(*ast.IndexExpr).Index
+							if resolveText(g, v, pr[0], 3) == resolveText(g, store, key, 3) {
+								bump = true
+							}
+						}
+					}
 				}
 			}
 		}
